@@ -244,6 +244,33 @@ def history(run, prog, w):
     except RaiseEx as e:
         ok, why = False, f'raises {e}'
     run.check(ok, 'D4', 'VmStack.deserialize[history]' if not ok else 'history: two parses in one process', why, w)
+    # a serialisation that is refused (a value that fits no form) leaves nothing behind: the stacks serialised afterwards in the same
+    # process get the cells a fresh process gives them
+    it = Interp(prog)
+    try:
+        bad = ListV([it.construct(VT0, [ListV([K(1), K(2)])], {}), it.construct(VT0, [ListV([K(3)])], {}), K(1 << 257)])
+        try:
+            it.call(Bound(prog.cls('VmStack'), ser0), [bad], {})
+            refused = False
+        except RaiseEx:
+            refused = True
+        later = [ListV([it.construct(VT0, [ListV([K(4), K(5)])], {}), it.construct(VT0, [ListV([K(6)])], {})]),
+                 ListV([it.construct(VT0, [ListV([it.construct(VT0, [ListV([K(7)])], {}), K(8)])], {})])]
+        ok, why = True, f'a stack holding 2^257 is {"refused" if refused else "ACCEPTED"}; the stacks serialised afterwards are the cells of a fresh process and parse back to their values'
+        for j, st_ in enumerate(later):
+            got_c = it.call(Bound(prog.cls('VmStack'), ser0), [st_], {})
+            it2 = Interp(prog)
+            fresh = ListV([it2.construct(VT0, [ListV([K(4), K(5)])], {}), it2.construct(VT0, [ListV([K(6)])], {})]) if j == 0 else \
+                ListV([it2.construct(VT0, [ListV([it2.construct(VT0, [ListV([K(7)])], {}), K(8)])], {})])
+            want_c = it2.call(Bound(prog.cls('VmStack'), ser0), [fresh], {})
+            backj = it.call(Bound(prog.cls('VmStack'), des0), [cm.call_method(it, got_c, 'begin_parse')], {})
+            if bocrun.ckey(it, got_c) != bocrun.ckey(it2, want_c) or [vkey(it, v) for v in backj.items] != [vkey(it, v) for v in st_.items]:
+                ok, why = False, f'after a refused serialisation, stack #{j + 1} serialises to another cell than in a fresh process (or does not parse back to its values): state is left behind by the refused call'
+                break
+    except RaiseEx as e:
+        ok, why = False, f'raises {e}'
+    run.check(ok, 'D3', 'VmStack.serialize[after a refused serialisation]' if not ok else 'history: refused serialisation leaves nothing behind', why, w)
+
     def build(it, extra):
         VT = prog.cls('VmTuple')
         inner = it.construct(VT, [ListV([K(5)] + ([K(42)] if extra else []))], {})
